@@ -299,7 +299,6 @@ func runC17(cfg *Cfg, rec *ev.Rec) {
 	for it := 0; it < nb; it++ {
 		fallbackBatch(rng, rec, it)
 	}
-	rec.Sample(map[string]interface{}{"layout": mon.Layout, "direct_heaps": nh, "api_batches": nb})
 }
 
 func bitClass(b int) string {
@@ -573,7 +572,6 @@ func runC04inside(cfg *Cfg, rec *ev.Rec) {
 		rec.Eval("scMinimal")
 		rec.Class(fmt.Sprintf("scMinimal/topbyte/%02x", tb[31]), 1)
 	}
-	rec.Sample(map[string]interface{}{"rounds": rounds})
 }
 
 func runC09inside(cfg *Cfg, rec *ev.Rec) {
@@ -610,7 +608,6 @@ func runC09inside(cfg *Cfg, rec *ev.Rec) {
 		rec.Eval("isSmallOrder", "isSmallOrder/"+cls)
 		rec.Nontrivial(b)
 	}
-	rec.Sample(map[string]interface{}{"strings": n})
 }
 
 func replayRoot(rec *ev.Rec, c map[string]interface{}) {
